@@ -85,15 +85,13 @@ def wf_findall(e, tag):
     """Ground instances of the assumed facts about findall/find on (e, tag)."""
     k = z3.Int(fresh_name("k"))
     return z3.And(FA_N(e, tag) >= 0,
-                  z3.ForAll([k], z3.Implies(z3.And(k >= 0, k < FA_N(e, tag)), TAG(FA_AT(e, tag, k)) == tag),
-                            patterns=[FA_AT(e, tag, k)]))
+                  z3.ForAll([k], z3.Implies(z3.And(k >= 0, k < FA_N(e, tag)), TAG(FA_AT(e, tag, k)) == tag)))
 
 
 def wf_iter(e, tag):
     k = z3.Int(fresh_name("k"))
     return z3.And(D_N(e, tag) >= 0,
-                  z3.ForAll([k], z3.Implies(z3.And(k >= 0, k < D_N(e, tag)), TAG(D_AT(e, tag, k)) == tag),
-                            patterns=[D_AT(e, tag, k)]))
+                  z3.ForAll([k], z3.Implies(z3.And(k >= 0, k < D_N(e, tag)), TAG(D_AT(e, tag, k)) == tag)))
 
 
 # ----------------------------------------------------------------- helpers --
